@@ -38,3 +38,22 @@ package keeper
 //@   ensures[C18.evm_get_code] bytes(code) == evmCodeOf(kvHas[kvId(layer(ctx), payload(k.storeKey))], kvVal[kvId(layer(ctx), payload(k.storeKey))], codeHash)
 //@   ensures len(code) == 0 || fresh(base(code))
 //@   panics never
+
+// ---------------------------------------------------------------------------------------------
+// keeper.go IsEmptyAccount (C15 empty-account sweep, C10 / C04: what the sweep may burn) — the CONCRETE method behind the
+// assumed interface summary (k EvmKeeper) IsEmptyAccount of x/evm/vm/verif_contracts.go, VERIFIED: an account is reported
+// empty exactly when it has an empty code hash, a zero balance in EVERY denomination, sequence 0 (or no account record)
+// and no storage record (the store's iterator yields nothing under [2] ++ address). ForEachStorage is inlined with the
+// closure (it stops at the first record: the loop never takes its back edge).
+// ---------------------------------------------------------------------------------------------
+//@ func (k *Keeper) IsEmptyAccount(ctx sdk.Context, addr common.Address) bool
+//@   requires k != nil && k.storeKey != nil && k.bankKeeper != nil
+//@   modifies nothing
+//@   ensures[C15.is_empty_code_hash,C10.is_empty_code_hash,C04.is_empty_code_hash] result ==> isEmptyCodeHash(evmCodeHash[layer(ctx)][addrBytes(addr)])
+//@   ensures[C15.is_empty_all_denoms,C10.is_empty_all_denoms,C04.is_empty_all_denoms] result ==> (forall den string :: bankBal[layer(ctx)][addrBytes(addr)][den] == 0)
+//@   ensures[C15.is_empty_sequence,C10.is_empty_sequence,C04.is_empty_sequence] result ==> acctSeq[layer(ctx)][addrBytes(addr)] == 0
+//@   ensures[C15.is_empty_no_storage,C10.is_empty_no_storage,C04.is_empty_no_storage] result ==> kvSeqLen(kvHas[kvId(layer(ctx), payload(k.storeKey))], evmStoragePrefixB(addr)) == 0
+//@   ensures[C15.is_empty_iff,C10.is_empty_iff,C04.is_empty_iff] result == (isEmptyCodeHash(evmCodeHash[layer(ctx)][addrBytes(addr)]) && (forall den string :: bankBal[layer(ctx)][addrBytes(addr)][den] == 0) && acctSeq[layer(ctx)][addrBytes(addr)] == 0 && kvSeqLen(kvHas[kvId(layer(ctx), payload(k.storeKey))], evmStoragePrefixB(addr)) == 0)
+//@   panics never
+//@ loop 1 of ForEachStorage
+//@   invariant iterator != nil && fresh(payload(iterator)) && itKv(payload(iterator)) == kvId(layer(ctx), payload(k.storeKey)) && itPrefix(payload(iterator)) == evmStoragePrefixB(addr) && itPos[payload(iterator)] == 0 && !anyState
